@@ -6,6 +6,7 @@ ops:
   init <id> <proxy> <admin>            NewState + newClusterState + Sync
   node <id> <status> <proxy> <admin> <ep>=<n> ...     cluster.AddNode (remote row)
   add <uid> <ep> | rm <uid> <ep>       AddConn / RemoveConn
+  compact <thr>                        CompactLocal of the node's own gossip state
   sel <ep> <0|1>                       Select(ep, allowRemote)
   lb.new | lb.add <u> | lb.rm <u> | lb.next        raw loadBalancer
 -/
@@ -70,6 +71,15 @@ def step (s : St) : List String → St × String
       let m := s.m.removeConn { id := uid, ep := hx e }
       ({ s with m := m }, "ok " ++ showState m)
     | none => (s, "bad-op")
+  | ["compact", thr] =>
+    match thr.toNat? with
+    | none => (s, "bad-op")
+    | some t =>
+      match Gossip.compactLocal s.m.gossip t with
+      | none => (s, "panic")
+      | some g =>
+        let m := { s.m with gossip := g }
+        ({ s with m := m }, "ok " ++ showState m)
   | ["sel", e, ar] =>
     let (r, m) := s.m.select (hx e) (ar = "1")
     let out := match r with
